@@ -140,6 +140,64 @@ def real_of(fr):
     return s if fr >= 0 else f'(-{s})'
 
 
+def parse_impl_header(item):
+    """{'generics', 'trait' (None for inherent impls), 'args' [normalised strings], 'self_ty', 'where'} of an impl item;
+    lifetimes are stripped (an elided and an explicit lifetime denote the same impl)"""
+    toks = item.toks[item.first:item.body_open]
+    i = 0
+    while i < len(toks) and toks[i].text != 'impl':
+        i += 1
+    if i >= len(toks):
+        return None
+    i += 1
+    gens = []
+    if i < len(toks) and toks[i].text == '<':
+        e = rsparse.skip_generics(toks, i)
+        gens = toks[i + 1:e - 1]
+        i = e
+    rest = toks[i:]
+    # split off the where clause
+    w = next((k for k, t in enumerate(rest) if t.kind == 'ident' and t.text == 'where'), len(rest))
+    where = rest[w + 1:]
+    rest = rest[:w]
+    # find the top-level `for`
+    depth, f = 0, None
+    for k, t in enumerate(rest):
+        if t.text == '<':
+            depth += 1
+        elif t.text == '>':
+            depth -= 1
+        elif t.kind == 'ident' and t.text == 'for' and depth == 0:
+            f = k
+            break
+
+    def norm(ts):
+        return ''.join(t.text for t in ts if t.kind != 'lifetime')
+    if f is None:
+        return {'generics': norm(gens), 'trait': None, 'args': [], 'self_ty': norm(rest), 'where': norm(where)}
+    tr, st = rest[:f], rest[f + 1:]
+    # trait path and its generic arguments
+    a = next((k for k, t in enumerate(tr) if t.text == '<'), None)
+    args = []
+    if a is not None:
+        inner = tr[a + 1:len(tr) - 1]
+        depth, cur = 0, []
+        for t in inner:
+            if t.text == '<':
+                depth += 1
+            elif t.text == '>':
+                depth -= 1
+            if t.text == ',' and depth == 0:
+                args.append(norm(cur))
+                cur = []
+            else:
+                cur.append(t)
+        if cur:
+            args.append(norm(cur))
+        tr = tr[:a]
+    return {'generics': norm(gens), 'trait': norm(tr).lstrip(':'), 'args': args, 'self_ty': norm(st), 'where': norm(where)}
+
+
 class QType:
     def __init__(self, name):
         self.name = name
@@ -311,76 +369,67 @@ class TypesGen:
         if c.kw != 'impl':
             raise LostAnchor(f'unexpected item kind {c.kw} in module {mod}')
         # ---- impls ----
-        if re.match(r'impl fmt :: Display for \w+$', h):
+        hd = parse_impl_header(c)
+        if hd is None:
+            raise LostAnchor(f'cannot parse impl header in module {mod}: {h[:120]}')
+        tr, args, st = hd['trait'], hd['args'], hd['self_ty']
+        T = self.types
+        own = lambda a, x: a in ('Self', x)        # the type itself, written either way
+
+        def unit_of(n):
+            return n[:-4] if n.endswith('Unit') and n[:-4] in T else None
+        if tr is None:
+            if unit_of(st):
+                return   # inherent impl of the unit enum: VARIANTS array (K-reg)
+            raise LostAnchor(f'unexpected inherent impl in module {mod}: {h[:100]}')
+        if tr in ('fmt::Display', 'Display', 'core::fmt::Display', 'std::fmt::Display'):
             return   # R3
-        m = re.match(r'impl (\w+)$', h)
-        if m and m.group(1).endswith('Unit') and m.group(1)[:-4] in self.types:
-            return   # VARIANTS array (K-reg)
-        m = re.match(r'impl Quantity for (\w+)$', h)
-        if m and m.group(1) in self.types:
-            return self.emit_impl_quantity(self.types[m.group(1)], c)
-        m = re.match(r'impl Unit for (\w+)Unit$', h)
-        if m and m.group(1) in self.types:
-            return self.emit_impl_unit(self.types[m.group(1)], c)
-        m = re.match(r'impl LinearScaledUnit for (\w+)Unit$', h)
-        if m and m.group(1) in self.types:
-            return self.emit_impl_lsu(self.types[m.group(1)], c)
-        m = re.match(r'impl HasRefUnit for (\w+)$', h)
-        if m and m.group(1) in self.types:
-            return self.emit_impl_hasref(self.types[m.group(1)], c)
-        m = re.match(r'impl Eq for (\w+)$', h)
-        if m and m.group(1) in self.types:
-            self.sink(m.group(1)).append(c.text() + '\n')
+        if tr == 'Quantity' and not args and st in T:
+            return self.emit_impl_quantity(T[st], c)
+        if tr == 'Unit' and not args and unit_of(st):
+            return self.emit_impl_unit(T[unit_of(st)], c)
+        if tr == 'LinearScaledUnit' and not args and unit_of(st):
+            return self.emit_impl_lsu(T[unit_of(st)], c)
+        if tr == 'HasRefUnit' and not args and st in T:
+            return self.emit_impl_hasref(T[st], c)
+        if tr == 'Eq' and not args and st in T:
+            self.sink(st).append(f'impl Eq for {st} {{}}\n')
             return
-        m = re.match(r'impl PartialEq < Self > for (\w+)$', h)
-        if m and m.group(1) in self.types:
-            return self.emit_cmp(self.types[m.group(1)], c, 'eq')
-        m = re.match(r'impl PartialOrd for (\w+)$', h)
-        if m and m.group(1) in self.types:
-            return self.emit_cmp(self.types[m.group(1)], c, 'partial_cmp')
-        m = re.match(r'impl (Add|Sub|Div) < Self > for (\w+)$', h)
-        if m and m.group(2) in self.types:
-            return self.emit_like_op(self.types[m.group(2)], c, m.group(1))
-        m = re.match(r'impl Mul < (\w+)Unit > for AmountT$', h)
-        if m and m.group(1) in self.types:
-            return self.emit_scalar(self.types[m.group(1)], c, 'amnt_x_unit')
-        m = re.match(r'impl Mul < AmountT > for (\w+)Unit$', h)
-        if m and m.group(1) in self.types:
-            return self.emit_scalar(self.types[m.group(1)], c, 'unit_x_amnt')
-        m = re.match(r'impl Mul < (\w+) > for AmountT$', h)
-        if m and m.group(1) in self.types:
-            return self.emit_scalar(self.types[m.group(1)], c, 'amnt_x_qty')
-        m = re.match(r'impl Mul < AmountT > for (\w+)$', h)
-        if m and m.group(1) in self.types:
-            return self.emit_scalar(self.types[m.group(1)], c, 'qty_x_amnt')
-        m = re.match(r'impl Div < AmountT > for (\w+)$', h)
-        if m and m.group(1) in self.types:
-            return self.emit_scalar(self.types[m.group(1)], c, 'qty_div_amnt')
-        m = re.match(r'impl < TQ : Quantity > Mul < Rate < TQ , Self > > for (\w+)$', h)
-        if m and m.group(1) in self.types:
-            return self.emit_rate(self.types[m.group(1)], c, 'mul')
-        m = re.match(r'impl < PQ : Quantity > Div < Rate < Self , PQ > > for (\w+)$', h)
-        if m and m.group(1) in self.types:
-            return self.emit_rate(self.types[m.group(1)], c, 'div')
-        # derived value impls
-        m = re.match(r'impl (Mul|Div) < (\w+) > for (\w+) where Self : HasRefUnit(?: , (\w+) : HasRefUnit)?$', h)
-        if m:
-            B = m.group(3) if m.group(2) == 'Self' else m.group(2)
-            return self.emit_derived(c, m.group(1), m.group(3), B)
-        # reference-forwarding forms
-        m = re.match(r"impl < 'a > (Mul|Div) < (\w+) > for & 'a (\w+) where (\w+) : (Mul|Div) < (\w+) >$", h)
-        if m and m.group(3) == m.group(4) and m.group(1) == m.group(5) and m.group(2) == m.group(6):
-            return self.emit_fwd(c, m.group(1), m.group(3), m.group(2), 'ref_val')
-        m = re.match(r'impl (Mul|Div) < & (\w+) > for (\w+) where Self : (Mul|Div) < (\w+) >$', h)
-        if m and m.group(1) == m.group(4) and m.group(2) == m.group(5):
-            B = m.group(3) if m.group(2) == 'Self' else m.group(2)
-            return self.emit_fwd(c, m.group(1), m.group(3), B, 'val_ref')
-        m = re.match(r'impl (Mul|Div) < & (\w+) > for & (\w+) where (\w+) : (Mul|Div) < (\w+) >$', h)
-        if m and m.group(3) == m.group(4) and m.group(1) == m.group(5) and m.group(2) == m.group(6):
-            return self.emit_fwd(c, m.group(1), m.group(3), m.group(2), 'ref_ref')
-        m = re.match(r'impl (Mul|Div) < Self > for & (\w+) where (\w+) : (Mul|Div) < (\w+) >$', h)
-        if m and m.group(2) == m.group(3) == m.group(5) and m.group(1) == m.group(4):
-            return self.emit_fwd(c, m.group(1), m.group(2), m.group(2), 'ref_ref_same')
+        if tr == 'PartialEq' and st in T and (not args or (len(args) == 1 and own(args[0], st))):
+            return self.emit_cmp(T[st], c, 'eq')
+        if tr == 'PartialOrd' and st in T and (not args or (len(args) == 1 and own(args[0], st))):
+            return self.emit_cmp(T[st], c, 'partial_cmp')
+        if tr in ('Add', 'Sub', 'Div') and st in T and (not args or (len(args) == 1 and own(args[0], st))):
+            return self.emit_like_op(T[st], c, tr)
+        if tr == 'Mul' and st == 'AmountT' and len(args) == 1 and unit_of(args[0]):
+            return self.emit_scalar(T[unit_of(args[0])], c, 'amnt_x_unit')
+        if tr == 'Mul' and unit_of(st) and args == ['AmountT']:
+            return self.emit_scalar(T[unit_of(st)], c, 'unit_x_amnt')
+        if tr == 'Mul' and st == 'AmountT' and len(args) == 1 and args[0] in T:
+            return self.emit_scalar(T[args[0]], c, 'amnt_x_qty')
+        if tr == 'Mul' and st in T and args == ['AmountT']:
+            return self.emit_scalar(T[st], c, 'qty_x_amnt')
+        if tr == 'Div' and st in T and args == ['AmountT']:
+            return self.emit_scalar(T[st], c, 'qty_div_amnt')
+        if tr == 'Mul' and st in T and len(args) == 1 and re.fullmatch(r'Rate<(\w+),(Self|%s)>' % re.escape(st), args[0]):
+            return self.emit_rate(T[st], c, 'mul')
+        if tr == 'Div' and st in T and len(args) == 1 and re.fullmatch(r'Rate<(Self|%s),(\w+)>' % re.escape(st), args[0]):
+            return self.emit_rate(T[st], c, 'div')
+        if tr in ('Mul', 'Div') and len(args) == 1:
+            a_ref, b_ref = st.startswith('&'), args[0].startswith('&')
+            A = st.lstrip('&')
+            B = args[0].lstrip('&')
+            same = False
+            if B == 'Self':
+                B = A
+                if a_ref and not b_ref:
+                    b_ref, same = True, True      # `Mul<Self> for &A`: the argument is `&A` with the same lifetime
+            ok = lambda n: n == 'AmountT' or n in T
+            if ok(A) and ok(B):
+                if not a_ref and not b_ref:
+                    return self.emit_derived(c, tr, A, B)
+                form = 'ref_val' if (a_ref and not b_ref) else ('val_ref' if (b_ref and not a_ref) else ('ref_ref_same' if same else 'ref_ref'))
+                return self.emit_fwd(c, tr, A, B, form)
         raise LostAnchor(f'unrecognised impl in module {mod}: {h[:120]}')
 
     # ---------- emitters ----------
